@@ -277,7 +277,7 @@ Section CountRel.
     - (* log1 *) cnt_close.
     - (* sub2 *) destruct (to_i64 _ _ _); [|cnt_close]. destruct (to_i64 _ _ _); cnt_close.
     - cnt_close.
-    - (* str1 *) destruct (speek s 0); try cnt_close. destruct (hget _ _) as [[]|]; cnt_close.
+    - (* str1 *) destruct (as_str _ _); cnt_close.
     - (* mix3 *) destruct (to_i64 _ _ _); [|cnt_close]. destruct (to_f64 _ _ _); cnt_close.
     - (* call1 *)
       destruct (spush s _) as [s1|] eqn:E1; [|cnt_close].
@@ -287,6 +287,14 @@ Section CountRel.
       pose proof (Hrf (speek s 1) s1) as H. destruct (run_function _ _ _ _ s1); cnt_close.
     - (* call0 *)
       pose proof (Hrf (speek s 0) s) as H. destruct (run_function _ _ _ _ s); cnt_close.
+    - (* t4 *) destruct (as_str _ _); try cnt_close.
+      destruct (as_bool _ _ _); [|cnt_close]. destruct (to_f64 _ _ _); [|cnt_close]. destruct (to_i64 _ _ _); cnt_close.
+    - (* nil1 *) destruct (speek s 0); try cnt_close; destruct (to_i64 _ _ _); cnt_close.
+    - (* tab1 *) destruct (get_table _ _); cnt_close.
+    - (* cat2 *) destruct (as_str _ _); try cnt_close. destruct (as_str _ _); cnt_close.
+    - (* rb1 *)
+      destruct (spush s _) as [s1|] eqn:E1; [|cnt_close].
+      pose proof (Hrf (speek s 1) s1) as H. destruct (run_function _ _ _ _ s1); cnt_close.
     - apply native_minmax_R; exact Hrf.
     - apply native_minmax_R; exact Hrf.
     - apply native_sorted_R; exact Hrf.
@@ -741,6 +749,33 @@ Proof.
   intros. rewrite (@native_error_wrapped F P re fuel _ NFail0 s EUnimplemented s find_native_fail0 eq_refl).
   destruct s as [[c d] ? ? ? ? ? ? ?]. unfold spop_n, vs_pop_n. cbn.
   repeat f_equal; try lia. destruct c; reflexivity.
+Qed.
+
+Lemma find_native_str1 : find_native (handle_of_bytes name_str1) all_natives = Some NStr1.
+Proof. vm_compute. reflexivity. Qed.
+
+(* a failed conversion is InvalidArgument naming the parameter, wrapped as TaskFailure{name}; the argument is
+   popped all the same *)
+Theorem native_conversion_error_str1 : forall F P re fuel s l v,
+  stack_ok s -> stack_of s = l ++ [v] -> as_str (st_heap s) v = SNot ->
+  exists s',
+    call_native_fuel F P re (S fuel) (handle_of_bytes name_str1) s
+      = NErr (ETaskFailure name_str1 (EConversion 1)) s' /\
+    stack_of s' = l /\ st_calls s' = st_calls s /\ st_globals s' = st_globals s /\ st_heap s' = st_heap s /\
+    st_log s' = st_log s.
+Proof.
+  intros F P re fuel s l v Hok Hst Hv.
+  assert (Hpk : speek s 0 = v).
+  { rewrite (speek_abs 0 Hok), Hst, app_length. cbn [length].
+    replace (0 <? length l + 1) with true by (symmetry; apply Nat.ltb_lt; lia).
+    replace (length l + 1 - 0 - 1) with (length l + 0) by lia. rewrite app_nth2_plus. reflexivity. }
+  assert (Hb : native_body F P re (call_native_fuel F P re fuel) NStr1 s = NErr (EConversion 1) s).
+  { cbn [native_body]. rewrite Hpk, Hv. reflexivity. }
+  rewrite (@native_error_wrapped F P re fuel _ NStr1 s _ s find_native_str1 Hb). cbn [native_arity native_name].
+  destruct (spop_n_abs 1 Hok) as (_ & Hst2 & _). rewrite Hst, app_length in Hst2. cbn [length] in Hst2.
+  replace (length l + 1 - Nat.min (length l + 1) 1) with (length l) in Hst2 by lia.
+  rewrite firstn_app, firstn_all, Nat.sub_diag in Hst2. cbn [firstn] in Hst2. rewrite app_nil_r in Hst2.
+  eexists; split; [reflexivity|]. repeat split; auto.
 Qed.
 
 (* a name that was not registered is ProcedureNotFound and the VM state is untouched *)
